@@ -96,10 +96,16 @@ theorem copyFd_spec (o : Oracle W) (w : W) (t : FdTable) (src : DupSrc) (input :
       · rw [if_pos (by simpa using hacc)]
         exact .inr ⟨_, rfl, Equiv.refl _⟩
 
+/-- what the proofs need of `here_doc::open_fd` as extracted from the code: the descriptor it hands
+    back is not CLOEXEC (it may become a user descriptor 0–9 without any `dup2`), and it is closed when
+    the content cannot be written.  A different extracted value stops the build here. -/
+theorem hereDocCloexec_false : hereDocCloexec = false := rfl
+theorem hereDocClosesOnFailure_true : hereDocClosesOnFailure = true := rfl
+
 theorem hereDocFd_spec (o : Oracle W) (w : W) (t : FdTable) (content : List Nat) :
     PrepSpec t (hereDocFd o w t content) := by
   unfold hereDocFd
-  simp only [allocLowest]
+  simp only [allocLowest, hereDocCloexec_false, hereDocClosesOnFailure_true, if_true]
   cases ha : t.openFdGe 0 { ofd := (o.tmpfile w).2, cloexec := false } (o.deny (o.tmpfile w).1).2 with
   | none => exact .inr ⟨_, rfl, Equiv.refl _⟩
   | some p =>
